@@ -6,8 +6,6 @@ Open Scope nat_scope.
 
 (* ---------- conservation and at-least-once, for all runs ---------- *)
 
-Definition no_timeout (es : list event) : bool := forallb (fun e => negb (is_flush_timeout e)) es.
-
 Record cons_inv (s : state) : Prop := mkCons {
   cI1 : forall t, In t (ingested s) -> In t (anywhere s);
   cI2 : forall t, In t (anywhere s) -> In t (ingested s);
